@@ -284,6 +284,11 @@ def run(ctx):
         if any(k.startswith(p) for k in new_keys for p in rel):
             ctx.log("%s does not compile; explained by concrete failing inputs" % f)
             continue
+        if lg.startswith("translator (fail-closed)"):
+            # nothing ill-formed was generated: the translator refused a source form it does not recognise
+            ctx.violation("translator-rejected:" + f, "the translator rejected the source (fail-closed, nothing generated), the property is no longer shown: %s" % lg,
+                          {"replay_py": REPLAY_COQ % dict(file="translator/splits.py", log=lg[-1200:]), "obligation": "translate"}, found_input=False)
+            continue
         ctx.violation("coq:" + f, "%s no longer checks against the model regenerated from the source (no concrete failing input found): %s"
                       % (f, lg.strip().splitlines()[-1] if lg.strip() else ""),
                       {"replay_py": REPLAY_COQ % dict(file=f, log=lg[-1200:]), "obligation": f}, found_input=False)
